@@ -615,13 +615,13 @@ func osRunScenarios(thorough bool) []osRunScenario {
 }
 
 type osRunObs struct {
-	returned bool
-	runErr   string
-	results  *testResults
-	world    *psWorld
-	expected map[string]*c05Expect
+	returned     bool
+	runErr       string
+	results      *testResults
+	world        *psWorld
+	expected     map[string]*c05Expect
 	liveAtReturn []int
-	peerLog  string
+	peerLog      string
 }
 
 func osRunRun(sc osRunScenario, dir string, idx int) *osRunObs {
